@@ -20,7 +20,7 @@ from pvmon.props import c02
 
 PLAN = {
     "quick": {"configs": ["ext1", "ext0"], "nshards": 12, "nshards_ext0": 4, "timeout": 900},
-    "thorough": {"configs": ["ext1", "ext0"], "nshards": 16, "timeout": 3400, "suite": ["ext1"]},
+    "thorough": {"configs": ["ext1", "ext0"], "nshards": 16, "timeout": 6000, "suite": ["ext1"]},
 }
 DECIDING = ["dt.add", "dt.subtract", "date.add", "date.subtract", "add_duration", "dt.plus_duration", "operators",
             "dt.minus_duration", "date.plus_duration", "date.minus_duration", "threeway", "neg_add_eq_subtract"]
